@@ -65,7 +65,7 @@ def _cfg(tier):
 def bounds(tier):
   c = _cfg(tier)
   return dict(outer='1..%d' % c['split_max'], inner='1..%d' % c['split_max'], start_with_input=[False, True],
-              post_process_fn=['identity', 'restructuring'], scan_fns=['lax.scan', 'nested_checkpoint_scan'],
+              post_process_fn=['identity', 'restructuring'], scan_fns=['lax.scan', 'nested_checkpoint_scan'], nested_scan_fn=['lax.scan (default)', 'partial(lax.scan, reverse=True)'],
               repeated='n=0..%d, every nesting tuple of n (depth<=3)' % c['repeat_max'],
               filter_lists='all ordered lists with repetition, length<=%d, from 3 filters' % c['filter_len'],
               nested_scan_lengths='1..%d: every ordered factorisation (factors>=2), depth<=%d' % (c['scan_max'], c['depth']),
@@ -498,6 +498,15 @@ def _work_nested(unit, rec):
           _cmp(rec, (c2, ys2), (rc, rys), 'nested_eager_values_vs_python_loop', key, abs(amp))
         except Exception as e:
           rec.fail('nested_scan_raised_or_misshaped', key, {'error': (type(e).__name__ + ': ' + str(e))[:300], 'eager': True})
+        # a caller-supplied scan_fn with other semantics (reverse scan) must be used at EVERY nesting level
+        try:
+          import functools
+          rev = functools.partial(jax.lax.scan, reverse=True)
+          c3, ys3 = jax.jit(lambda i_, x_: ti.nested_checkpoint_scan(body, i_, x_, n, nested_lengths=list(t), scan_fn=rev))(R['init'], xs)
+          c4, ys4 = jax.jit(lambda i_, x_: jax.lax.scan(body, i_, x_, length=n, reverse=True))(R['init'], xs)
+          _cmp(rec, (c3, ys3), (c4, ys4), 'nested_reverse_scan_fn_vs_flat_reverse_scan', key, abs(amp))
+        except Exception as e:
+          rec.fail('nested_scan_raised_or_misshaped', key, {'error': (type(e).__name__ + ': ' + str(e))[:300], 'scan_fn': 'reverse'})
     if rec.want(rkey):
       init = refs[unit['amps'][0]]['init']
       bad = sorted(b for b in {0, n - 1, n + 1, 2 * n} if b >= 0 and b != n)
